@@ -195,9 +195,58 @@ def run_repeated(res, vh):
     res.extra.setdefault("distribution", {})["repeated_line_programs"] = len(REPEATED)
 
 
+def unbalanced_lines():
+    """a line whose parentheses do not match - n left open, n too many closed, some closed and some not, around numbers, names
+    and function calls, in every place an expression can stand: refused, and refused promptly however many there are"""
+    out = []
+    for n in (1, 2, 8, 16, 18, 20, 22, 24, 28, 32, 40, 48, 64, 100, 200, 1000):
+        for pat in (" ldi r16, %s\n", " .dw %s\n", ".equ x = %s\n", ".if %s\n nop\n.endif\n", ".set v = %s\n", ".org %s\n", " .db 1, %s, 3\n",
+                    ".macro m\n .dw %s\n.endm\n m\n", ".macro m\n .dw @0\n.endm\n m %s\n"):
+            out.append(pat % ("(" * n + "1"))
+            out.append(pat % ("(" * n + "1" + ")" * (n // 2)))
+            out.append(pat % ("(" * n + "1" + ")" * (n - 1)))
+            out.append(pat % ("low(" * n + "1"))
+            out.append(pat % ("(1+" * n + "1"))
+            out.append(pat % ("-(" * n + "nosuch"))
+    return out
+
+
+def run_unbalanced(res, vh):
+    """judged on the implementation only (the time a parser needs is not a notion of the Coq model): one worker per line"""
+    import time
+    from . import common as C
+    cases = unbalanced_lines()
+    slow = []
+
+    def one(text):
+        t0 = time.time()
+        obs = C.vh(vh, ["build-worker"], input=text.encode("utf-8").hex() + "\n").strip()
+        return text, obs, time.time() - t0
+    import concurrent.futures as cf
+    # shortest lines first, in batches: a batch with a slow or abnormal line ends the search (every longer line would wait for
+    # the watchdog as well)
+    cases.sort(key=len)
+    nfail = 0
+    with cf.ThreadPoolExecutor(max_workers=max(2, C.NCPU // 2)) as ex:
+        for at in range(0, len(cases), 48):
+            for text, obs, dt in list(ex.map(one, cases[at:at + 48])):
+                res.count(("unbalanced", text), nontrivial=True)
+                k = obs.split(" ")[0]
+                if k in ("PANIC", "CRASH", "TIMEOUT", "MISSING") or (dt > PROMPT_SECONDS and one(text)[2] > PROMPT_SECONDS):
+                    nfail += 1
+                    P.fail(res, "builder::build_str (isolated worker)", text if len(text) < 300 else text[:150] + " ... (%d bytes)" % len(text),
+                           "a result or an error value within %.0f s" % PROMPT_SECONDS, "%s after %.1f s" % (k, dt), "slow:unbalanced")
+                elif k == "OK":
+                    P.fail(res, "builder::build_str (isolated worker)", text[:300], "a failed build (parentheses do not match)", obs[:60], "accepted:unbalanced")
+            if nfail:
+                break
+    res.extra.setdefault("distribution", {})["unbalanced_parenthesis_lines"] = len(cases)
+
+
 def run(res):
     vh, exe = P.base(res, PROP)
     run_repeated(res, vh)
+    run_unbalanced(res, vh)
     rng = random.Random(res.seed)
     from . import gen
     texts = [l + "\n" for l in single_lines(res.tier)] + [l + "\n" for l in device_lines(gen.read_devices(vh), res.tier)]
@@ -234,8 +283,8 @@ def run(res):
                 "name kind; %d structural "
                 "programs (cyclic .equ, recursive and mutually recursive macros, unbalanced directives, address-space and allocation "
                 "extremes, 60 KB tokens, NUL/BOM/non-ASCII); the hostile-line corpus; random programs with 1-3 token/line mutations; "
-                "three deep-nesting probes.  Each case in its own worker process with a watchdog (10 s) and a 3 GB address-space limit" %
-                (len(OPERANDS), len(STRUCTURAL)))
+                "three deep-nesting probes; %d lines with unbalanced parentheses (refused within 3 s).  Each case in its own worker process with a watchdog (10 s) and a 3 GB address-space limit" %
+                (len(OPERANDS), len(STRUCTURAL), len(unbalanced_lines())))
     res.samples = [dict(source=t[:80], outcome=obs[t][0][:40]) for t in texts[:2] + texts[-2:]]
     res.assume = ["native stack depth, wall-clock time and the allocator are outside the Coq model; they are exercised by this run only"]
 
@@ -245,6 +294,14 @@ match_known = P.match_known
 
 def replay(path):
     def judge(vh, exe, i):
-        rows = progrun.run_texts(vh, exe, [i["source"]])
-        return None if rows[0][1].split(" ")[0] not in ("PANIC", "CRASH", "TIMEOUT") else ("value", rows[0][1])
+        import time
+        from . import common as C
+        t0 = time.time()
+        a = C.vh(vh, ["build-worker"], input=i["source"].encode("utf-8").hex() + "\n").strip()
+        dt = time.time() - t0
+        if a.split(" ")[0] in ("PANIC", "CRASH", "TIMEOUT", "MISSING"):
+            return ("a result or an error value", a[:60])
+        if dt > PROMPT_SECONDS and "..." not in i["source"]:
+            return ("an answer within %.0f s" % PROMPT_SECONDS, "%.1f s" % dt)
+        return None
     return P.replay_text(PROP, path, judge)
